@@ -27,7 +27,7 @@ Definition body_fits (body_len max_body : Z) : bool := body_len <=? max_body.
 Inductive verdict := V429 | V413 | VAdmit.
 
 (** the part of ServeHTTP between route resolution and Enqueue, for a route without auth *)
-Definition admit (rate_ok : bool) (body_len max_body : Z) (hs : list (Z * Z)) (max_headers : Z) : verdict :=
+Definition size_verdict (rate_ok : bool) (body_len max_body : Z) (hs : list (Z * Z)) (max_headers : Z) : verdict :=
   if negb rate_ok then V429
   else if negb (body_fits body_len max_body) then V413
   else if negb (headers_fit hs max_headers) then V413
